@@ -1217,8 +1217,8 @@ func (g *gen) lim() string {
 }
 
 func (g *gen) loweringTemplate() string {
-	k := g.pick("tmpl", 24)
-	if k >= 22 {
+	k := g.pick("tmpl", 25)
+	if k >= 23 {
 		k = 5 // the aggregate traversal count shape has the narrowest eligibility of all: drawn three times as often
 	}
 	g.feat(fmt.Sprintf("template-%d", k))
@@ -1428,6 +1428,23 @@ func (g *gen) loweringTemplate() string {
 			second = "-[:" + g.eks() + "]->(d)"
 		}
 		return "match (a" + g.optKind("t21ka") + ")-[:" + g.ek() + rapid.SampledFrom([]string{"*1..", "*0..", "*", "*1..3"}).Draw(g.t, "t21r") + "]->(b)-[:" + g.eks() + "]->(c" + g.optKind("t21kc") + ")" + second + " where " + rel + " return " + rapid.SampledFrom([]string{"a", "a, c", "distinct a", "count(*)", "b, c"}).Draw(g.t, "t21ret")
+	case 21: // a reversed pattern (leading unbounded expansion, selective far end) whose path is observed: a second
+		// variable-length segment, a pattern predicate in the same WHERE, the path or its relationships returned
+		lead := "(s" + g.optKind("t22ks") + ")-[:" + g.ek() + rapid.SampledFrom([]string{"*0..", "*1..", "*"}).Draw(g.t, "t22r") + "]->(g" + g.optKind("t22kg") + ")"
+		mid := "-[:" + g.eks() + "]->(m" + g.optKind("t22km") + ")"
+		tail := ""
+		if g.chance("t22second", 2, 3) {
+			tail = "-[:" + g.ek() + rapid.SampledFrom([]string{"*1..", "*1..2", "*2..3", "*"}).Draw(g.t, "t22r2") + "]->(d" + g.optKind("t22kd") + ")"
+		}
+		last := "m"
+		if tail != "" {
+			last = "d"
+		}
+		where := " where " + g.anchor(last)
+		if g.chance("t22pp", 1, 2) {
+			where += " and " + rapid.SampledFrom([]string{"not ", ""}).Draw(g.t, "t22not") + "(s)-[:" + g.eks() + "]->(" + rapid.SampledFrom([]string{"", ":A", ":B"}).Draw(g.t, "t22ppk") + ")"
+		}
+		return "match p = " + lead + mid + tail + where + " return " + rapid.SampledFrom([]string{"p", "relationships(p)", "relationships(p)", "nodes(p)", "p, s", "relationships(p), nodes(p)", "size(relationships(p)), p"}).Draw(g.t, "t22ret")
 	default: // path functions, late path materialisation
 		return "match p = (a" + g.optKind("t13k") + ")-[:" + g.eks() + g.rng() + "]->(b) where " + g.anchor("a") + " return " + rapid.SampledFrom([]string{"nodes(p)", "relationships(p)", "size(relationships(p))", "b, size(nodes(p))", "p, a.name"}).Draw(g.t, "t13f")
 	}
